@@ -143,14 +143,14 @@ def insertStr (x : String) : List String → List String
 
 partial def showFields (v : Val) : String :=
   match v with
-  | .st labels kind val _ _ _ _ =>
+  | .st labels kind val _ _ _ _ _ _ =>
     let ls := labels.eraseDups
     let items := ls.filterMap fun l =>
       match kind l with
       | none => none
       | some .optional => some (labelStr l ++ "?")
       | some .required => some (labelStr l ++ "!")
-      | some .member => some (labelStr l ++ showFields (val l))
+      | some .member => some (labelStr l ++ (if l.isReg then showFields (val l) else ""))
     "{" ++ ",".intercalate (items.foldr insertStr []) ++ "}"
   | _ => ""
 
